@@ -14,6 +14,10 @@ import repo as repolib
 
 PROBE_ENV = {'NIXV_C01_UBPROBE': '1', 'NIXV_C01_XPROBE': '1', 'NIXV_C16': '1'}
 QUICK_PER_PROP = 150
+# the thorough tier replays up to this many cases of every property's THOROUGH stream (probe / malformed / misuse cases
+# first) under the sanitizers: about an hour in all; the uncapped streams run in the properties' own thorough tiers,
+# on the same sanitizer build
+THOROUGH_PER_PROP = 3000
 # streams whose cases are whole sessions (sha of the file around ~250 mutators, fork + SIGKILL harness): fewer in the quick tier
 QUICK_OVERRIDE = {'C09': 30, 'C11': 8}
 
@@ -80,8 +84,8 @@ class C16(Prop):
                 except RuntimeError:
                     model_exe = None
                 cases = sp.corpus() + sp.generate(seed, tier, 1)
-                cap = QUICK_OVERRIDE.get(sp.id, QUICK_PER_PROP)
-                if tier == 'quick' and len(cases) > cap:
+                cap = QUICK_OVERRIDE.get(sp.id, QUICK_PER_PROP) if tier == 'quick' else THOROUGH_PER_PROP
+                if len(cases) > cap:
                     rnd = random.Random(seed)
                     probes = [c for c in cases if 'probe' in c.tag or 'malformed' in c.tag or 'misuse' in c.tag or 'crash' in c.tag]
                     rest = [c for c in cases if c not in probes]
